@@ -13,7 +13,8 @@ fn run_with_timeout(ops: Vec<Op>) -> Result<(), String> {
         let r = std::panic::catch_unwind(|| run_ops(&ops));
         let _ = tx.send(match r { Ok(r) => r, Err(_) => Err("panic inside the table".to_string()) });
     });
-    match rx.recv_timeout(Duration::from_millis(1500)) {
+    // a case takes microseconds; 1.5 s and then another 20 s (a loaded machine must not turn scheduling delay into an alarm)
+    match rx.recv_timeout(Duration::from_millis(1500)).or_else(|_| rx.recv_timeout(Duration::from_secs(20))) {
         Ok(r) => r,
         Err(_) => Err("a probe loop does not terminate (no EMPTY slot left: live entries + tombstones fill the table)".to_string()),
     }
@@ -25,7 +26,7 @@ fn run_wait_with_timeout(nthreads: usize, ops: Vec<WOp>) -> Result<(), String> {
         let r = std::panic::catch_unwind(|| run_wait_ops(nthreads, &ops));
         let _ = tx.send(match r { Ok(r) => r, Err(_) => Err("panic inside the wait-queue code (a link-state assertion failed)".to_string()) });
     });
-    match rx.recv_timeout(Duration::from_millis(1500)) {
+    match rx.recv_timeout(Duration::from_millis(1500)).or_else(|_| rx.recv_timeout(Duration::from_secs(20))) {
         Ok(r) => r,
         Err(_) => Err("a wait-queue operation does not terminate".to_string()),
     }
